@@ -62,6 +62,12 @@ def gen_plan(tape, cfg):
         if tape.chance(1, 2, "usort2"):
             symbols["w0"] = ["S", "VW"]
             symbols["w1"] = ["S", "VW"]
+        if tape.chance(1, 2, "usort.arrays"):
+            # arrays whose element sort is a declared sort (the sort may occur nowhere else in a formula)
+            symbols["ar0"] = bp.ARRAY(bp.BV(1), ["S", "U"])
+            symbols["ar1"] = bp.ARRAY(bp.BV(1), ["S", "U"])
+            if not any(bp.is_bv(s_) and s_[1] == 1 for s_ in symbols.values()):
+                symbols["o1"] = bp.BV(1)
     if tape.chance(1, 4, "uf?"):
         # uninterpreted functions over tiny domains (the reference solver enumerates their tables)
         symbols["fn1"] = ["Fun", [bp.BV(1)], bp.BV(1)]
@@ -98,6 +104,8 @@ def gen_plan(tape, cfg):
             srt = t[2]
             if bp.is_usort(srt):
                 srt = ["S", "%s_%d" % (srt[1], e)]   # sort names stay simple symbols: pySMT does not quote them (C07 matter, not claimed here)
+            if bp.is_array(srt) and bp.is_usort(srt[2]):
+                srt = bp.ARRAY(srt[1], ["S", "%s_%d" % (srt[2][1], e)])
             symbols[nm] = srt
             return ["sym", nm, srt]
         if t[0] in ("bool", "int", "real", "bv"):
@@ -120,7 +128,8 @@ def gen_plan(tape, cfg):
         elif k in ("push", "pop"):
             o["n"] = tape.weighted([(5, 1), (3, 2), (1, 3)], "levels")
         elif k == "get_value":
-            srt = tape.choice([s_ for s_ in symbols.values() if not bp.is_usort(s_) and not bp.is_fun(s_)] or [bp.BOOL], "gv.sort")
+            srt = tape.choice([s_ for s_ in symbols.values() if not bp.is_usort(s_) and not bp.is_fun(s_)
+                               and not bp.is_array(s_)] or [bp.BOOL], "gv.sort")
             o["t"] = bp.gen_term(tape, srt, tape.rint(0, 2, "gv.depth"), ctx)
             o["api"] = tape.choice(["get_value", "get_value", "get_py_value", "get_values"], "gv.api")
         elif k == "shortcut":
@@ -136,7 +145,8 @@ def gen_plan(tape, cfg):
                "short_writes": tape.chance(1, 4, "short_writes"),
                "latency": tape.choice([0.0, 0.0, 0.001], "latency"),
                "check_delay": tape.choice([0.0, 0.0, 0.5, 30.0], "check_delay"),
-               "model_policy": tape.choice(["uniform", "uniform", "first", "last"], "model_policy")}
+               "model_policy": tape.choice(["uniform", "uniform", "first", "last"], "model_policy"),
+               "value_layout": tape.choice(["one-line", "one-line", "pretty"], "value_layout")}
     if family == "faulty":
         fk = tape.choice(["unknown", "error", "die_before", "die_after", "die_at_start", "eio", "stall"], "fault.kind")
         if fk == "unknown":
@@ -164,7 +174,7 @@ def shrink_plan(plan):
         yield p
     pf = plan["profile"]
     for key, simple in (("short_reads", False), ("short_writes", False), ("latency", 0.0), ("check_delay", 0.0),
-                        ("model_policy", "first")):
+                        ("model_policy", "first"), ("value_layout", "one-line")):
         if pf.get(key) != simple and not (key == "check_delay" and pf.get("fault") == "stall"):
             yield dict(plan, profile=dict(pf, **{key: simple}))
     for i, o in enumerate(plan["ops"]):
@@ -281,7 +291,7 @@ def _ref_env(ref):
 
 def execute(plan, tape):
     from pysmt.environment import reset_env
-    from pysmt.logics import QF_BV, QF_UFBV
+    from pysmt.logics import QF_BV, QF_UFBV, QF_AUFBV
     from pysmt.exceptions import (SolverReturnedUnknownResultError, UnknownSolverAnswerError,
                                   PysmtException, PysmtValueError)
     import pysmt.shortcuts as sc
@@ -291,17 +301,19 @@ def execute(plan, tape):
     symbols = plan["symbols"]
     has_usort = any(bp.is_usort(s) or bp.is_fun(s) for s in symbols.values())
     logic = QF_UFBV if has_usort else QF_BV
+    if any(bp.is_array(s) for s in symbols.values()):
+        logic = QF_AUFBV
     faulty = plan["family"] == "faulty"
     kernel = Kernel(tape, max_steps=50000, max_time=1e7)
     world = World(kernel, tape)
     world.profiles["p0"] = plan["profile"]
     # the shortcut solvers get a fault-free copy of the profile
     clean = {k: v for k, v in plan["profile"].items()
-             if k in ("short_reads", "short_writes", "latency", "model_policy")}
+             if k in ("short_reads", "short_writes", "latency", "model_policy", "value_layout")}
     clean["check_delay"] = 0.0 if plan["profile"].get("check_delay") == float("inf") else plan["profile"].get("check_delay", 0.0)
     world.profiles["p1"] = clean
-    env.factory.add_generic_solver("ref0", ["ref", "p0"], [QF_UFBV, QF_BV])
-    env.factory.add_generic_solver("ref1", ["ref", "p1"], [QF_UFBV, QF_BV])
+    env.factory.add_generic_solver("ref0", ["ref", "p0"], [QF_AUFBV, QF_UFBV, QF_BV])
+    env.factory.add_generic_solver("ref1", ["ref", "p1"], [QF_AUFBV, QF_UFBV, QF_BV])
     for n, s in symbols.items():
         mgr.Symbol(n, bp.to_pysmt_type(s, env))
     probes = {}
@@ -355,11 +367,11 @@ def execute(plan, tape):
             st.solver = api("Solver(name=ref0)", env.factory.Solver, name="ref0", logic=logic)
             st.proc = world.procs[-1]
             check_stream(st, "start-up")
-        for i, o in enumerate(plan["ops"]):
+        def step(i, o):
             k = o["op"]
             if k == "shortcut":
                 _shortcut(o, i)
-                continue
+                return
             st = sts[o["s"] % len(sts)]
             ref = st.proc.solver
             solver = st.solver
@@ -387,7 +399,7 @@ def execute(plan, tape):
             elif k == "pop":
                 nlev = min(o["n"], st.model.depth)
                 if nlev == 0:
-                    continue
+                    return
                 if st.pending:
                     probe("pending_pop_then_pop")
                 if nlev < o["n"] or (st.model.depth > nlev):
@@ -408,7 +420,7 @@ def execute(plan, tape):
                     if ref.mode == "unknown":
                         st.extra, st.pending = [], False
                         st.sat_mode = False
-                        continue
+                        return
                     raise Violation("C17:spurious-unknown", "solve raised unknown but the solver said %s" % ref.mode)
                 st.extra, st.pending = [], False
                 want = _sat(live())
@@ -424,7 +436,7 @@ def execute(plan, tape):
                     if ref.mode == "unknown":
                         st.extra, st.pending = [], True
                         st.sat_mode = False
-                        continue
+                        return
                     raise Violation("C17:spurious-unknown", "%s raised unknown but the solver said %s" % (k, ref.mode))
                 base = [st.tok_bp[j] for j in st.model.live_assertions()]
                 q = o["f"] if k != "is_valid" else ["not", o["f"]]
@@ -436,7 +448,7 @@ def execute(plan, tape):
                 st.sat_mode = sat
             elif k == "get_value":
                 if not st.sat_mode:
-                    continue
+                    return
                 if st.pending:
                     probe("get_value_after_oneshot")
                 t = bp.build(o["t"], env)
@@ -456,7 +468,7 @@ def execute(plan, tape):
                                             (bp.pretty(o["t"]), ref.log[-1]["src"][:60]))
                         probe("get_value_refused_unknown_symbol")
                         check_stream(st, where)
-                        continue
+                        return
                 else:
                     api_ = o.get("api", "get_value")
                     if api_ == "get_py_value":
@@ -480,7 +492,7 @@ def execute(plan, tape):
                 st.after_value = True
             elif k == "print_model":
                 if not st.sat_mode:
-                    continue
+                    return
                 import io, contextlib
                 buf = io.StringIO()
                 with contextlib.redirect_stdout(buf):
@@ -506,7 +518,7 @@ def execute(plan, tape):
                 probe("print_model_checked")
             elif k == "get_model":
                 if not st.sat_mode:
-                    continue
+                    return
                 if st.pending:
                     probe("get_model_after_oneshot")
                 if st.model.depth > 0:
@@ -540,6 +552,29 @@ def execute(plan, tape):
             if k in ("get_value", "get_model"):
                 st.read_model_at = len(ref.log)
             trace.append((o["s"], k, o.get("n"), ref.depth(), ref.mode))
+
+        for i, o in enumerate(plan["ops"]):
+            st_ = sts[o.get("s", 0) % len(sts)]
+            errors0 = sum(p_.solver.faults_fired.get("error_reply", 0) for p_ in world.procs)
+            try:
+                step(i, o)
+            except Violation as v:
+                ref_ = st_.proc.solver
+                errors1 = sum(p_.solver.faults_fired.get("error_reply", 0) for p_ in world.procs)
+                if not (faulty and o["op"] != "shortcut" and errors1 > errors0 and ":raised:" in v.sig
+                        and not ref_.dead and not ref_.illegal):
+                    raise
+                # The solver answered (error ...) to ONE command of this call and did not execute it; the
+                # call raised.  The solver is alive and in sync, so the history goes on with the full
+                # oracle: what the call did before the refused command stays done, the rest never happened.
+                probe("continued_after_error_reply")
+                state["strict"] = True      # the one injected error is over: nothing may go wrong from here on
+                # push(n) / pop(n) are one command each: refused means no level was added or removed.
+                # The only level beyond the user's own is the one a one-shot query left to be popped
+                # later (by this call, if the refused command was that pop; or a new one).
+                d_ = ref_.depth() - st_.model.depth
+                st_.extra, st_.pending, st_.sat_mode = [], d_ == 1, False
+                check_stream(st_, "%s@%d (refused by the solver)" % (o["op"], i))
         for st in sts:
             ref = st.proc.solver
             # non-triviality: commands after a get-value, re-declaration after pop/reset
@@ -569,6 +604,11 @@ def execute(plan, tape):
             got = api("shortcut." + kind, fn, f, solver_name="ref1", logic=logic,
                       allowed=(SolverReturnedUnknownResultError,))
         except SolverReturnedUnknownResultError:
+            if any(p.solver.mode == "unknown" or any(e.get("reply") == "unknown" for e in p.solver.log)
+                   for p in world.procs[n0:]):
+                # the reference solver itself gave up (search space above its row limit)
+                probe("shortcut_solver_said_unknown")
+                return
             raise Violation("C17:spurious-unknown", "shortcut %s raised unknown" % kind)
         probe("shortcut_" + kind)
         if kind == "get_model":
@@ -616,6 +656,8 @@ def execute(plan, tape):
                 raise Violation("C17:blocks-forever", "a call blocked with the solver idle: %s %s" % (d.reason, d.detail))
         except Violation as v:
             ff = faults_fired()
+            if state.get("strict"):
+                raise
             if faulty and ff and ":raised:" in v.sig:
                 # a call raised after an injected fault: allowed (never wrong data)
                 ended = "raised-after-fault"
